@@ -294,9 +294,15 @@ def run_program(pf, prog):
                 kw["index"] = idx_arg(rd[3])
             return ("ok", [h.head(rd[1], **kw)])
         if rd[0] == "count":
-            return ("ok", int(h.count()))
+            c, i = int(h.count()), int(h.info["rows"])
+            if c != i:
+                return ("fail", "Other:InfoMismatch", "count() = %d but info['rows'] = %d" % (c, i), "")
+            return ("ok", c)
         if rd[0] == "len":
-            return ("ok", int(len(h)))
+            c, i = int(len(h)), int(h.info["row_groups"])
+            if c != i:
+                return ("fail", "Other:InfoMismatch", "len() = %d but info['row_groups'] = %d" % (c, i), "")
+            return ("ok", c)
         raise AssertionError(rd)
     except Exception as e:      # noqa
         return ("fail", err_name(e), "%s: %s" % (type(e).__name__, str(e)[:200]), traceback.format_exc()[-1200:])
